@@ -96,7 +96,7 @@ class Device:
                 t = max(sched.S.now, self.feed_free_at)
                 for p in parts:
                     sched.S.at(t - sched.S.now, lambda p=p: self.port.feed(p))
-                    t += 200
+                    t += self.chunker.gap() if getattr(self.chunker, "gap", None) else 200
                 self.feed_free_at = t
             else:
                 self.port.feed(data)
